@@ -38,6 +38,9 @@ FRESH_METHODS = {
     "join", "format", "replace", "startswith", "endswith", "bind", "bind_partial", "submit", "result", "collect", "drop",
     "xs", "argmax", "argmin", "is_monotonic_increasing", "cumprod", "ravel_", "index_", "from_codes", "from_product",
     "from_arrays", "from_pandas", "empty", "count", "to_series", "is_bool_dtype", "to_list", "lower", "upper",
+    "take", "repeat", "unique", "fillna", "dropna", "where", "mask", "clip", "round", "diff", "cumprod", "cummax", "cummin",
+    "std", "var", "prod", "dot", "flatten", "compress", "choose", "argpartition", "value_counts", "duplicated", "isin",
+    "between", "notna", "notnull", "to_frame", "reset_index", "stack", "melt", "pivot", "merge", "explode", "nunique",
 }
 # methods / attributes whose result is a view of (or the same object as) the receiver
 VIEW_METHODS = {"view", "to_numpy", "reshape", "ravel", "squeeze", "transpose", "__array__", "swapaxes"}
